@@ -56,7 +56,12 @@ J05(t, k) ==
   ELSE IF ~(0 <= c.i /\ c.i < n /\ 0 <= c.j /\ c.j < n)
        THEN (IF c.exc = "IndexError" THEN "ok" ELSE "index-not-refused")
   ELSE LET M == Move({pre}, FALSE, c.i + 1, c.j + 1) IN
-       IF c.exc = "InterchangerError" THEN (IF M[2] THEN "ok" ELSE "refused-unobstructed-move")
+       \* a refusal needs an obstruction on the way; "the way" is the one the requested preference takes
+       \* (at a pair that commutes in both directions left = True passes on the left, otherwise on the right)
+       IF c.exc = "InterchangerError" THEN
+          (IF ~M[2] THEN "refused-unobstructed-move"
+           ELSE IF InterchangeAlg(pre, c.i, c.j, c.g = 1).e = "" THEN "refused-although-the-requested-side-is-free"
+           ELSE "ok")
        ELSE IF c.exc # "" THEN "unexpected-exception"
        ELSE IF AsDiag(c.res) \in M[1] THEN "ok"
        ELSE IF M[1] = {} THEN "obstructed-move-not-refused"
